@@ -172,9 +172,10 @@ def build(form):
         meta_children.append(RNode("instanceID", "q", "calculate", {}, None, None, helper="instanceID"))
     if "instance_name" in s:
         meta_children.append(RNode("instanceName", "q", "calculate", {"calculation": s["instance_name"]}, None, None, helper="instanceName"))
-    if form.get("entities"):
-        ent = RNode("entity", "q", "entity", dict(form["entities"][0]), None, None, helper="entity")
-        if form["entities"][0].get("label"):
+    erows = [r for r in form.get("entities") or [] if r]
+    if erows:
+        ent = RNode("entity", "q", "entity", dict(erows[0]), None, None, helper="entity")
+        if erows[0].get("label"):
             ent.add(RNode("label", "q", "entity-label", {}, None, None, helper="entity-label"))
         meta_children.append(ent)
     if meta_children:
